@@ -109,10 +109,14 @@ def run(ctx):
         "chain prefix, then contiguous updates starting <= current+1, lookups of old/current/future/non-existent indexes with RPC and dial "
         "failures, GetGuardianSetsFromChain, one round of the real ticker goroutine) on which the Spec is evaluated, and 'adversarial' "
         "sequences (arbitrary states, gaps, late starts, repeated targets, indexes near 2^32, current=-1) judged for the model tie only; "
-        "processor: 40 Push sequences (quick) of 8-17 VAAs each over guardian sets of 1..19 keys - exact quorum, all, one short, unsigned, "
+        "processor: 40 Push sequences (quick) of 8-17 VAAs each over chains of 2-5 guardian sets of clearly different sizes (1,2,4,7,13,19: growing, "
+        "shrinking, alternating, random) - VAAs naming old/current/future sets with exactly quorum(named)-1, quorum(named), quorum(current)-1, "
+        "quorum(current) valid signatures of the named set, exact quorum, all, one short, unsigned, "
         "outsider, quorum of another set, body altered, duplicate signer, swapped, re-indexed, out-of-range index, bad recovery id, too many, "
         "set unknown to the chain, repeats of earlier message ids - with the queue full / one slot left / empty and the dedup cache "
-        "honest, erroring, forgetting or answering arbitrarily; verifyVAA directly incl. nil / empty / short address lists; CalculateQuorum(0..255). "
+        "honest, erroring, forgetting or answering arbitrarily; verifyVAA directly (through reflection, only while its signature is unchanged) incl. "
+        "nil / empty / short address lists; CalculateQuorum(0..255). The Spec 'queued => signed, quorum of the NAMED set, Valid signatures' is "
+        "evaluated on what appeared on the queue, independently of the model. "
         "concurrency: 4 reader goroutines (GetGuardianSet of published, published-1, published+1; GetCurrentGuardianSet) against 2 "
         "updateGuardianSets writers, every result checked, under -race. distinct_nontrivial = lines on which model and implementation "
         "agreed on result, effects, chain requests and state, and the Spec held on the implementation's own result")
